@@ -235,6 +235,24 @@ theorem requestPlan_read_n {lim : Limits} {h : Head} {n : Nat} {chunk : Option N
     obtain ⟨rfl, _⟩ := hp
     rfl)
 
+/-- a request is handed to the application without reading content only when it announces none -/
+theorem requestPlan_done_app {lim : Limits} {h : Head} {o : Outcome} (hp : requestPlan lim h = .done o)
+    (happ : isApp o = true) : h.contentLength = 0 := by
+  unfold requestPlan at hp
+  simp only at hp
+  repeat' split at hp
+  all_goals first
+    | (simp at hp; done)
+    | (simp only [Plan.done.injEq] at hp
+       subst hp
+       first
+       | (simp [isApp] at happ; done)
+       | (have h0 : Gen.contentStartEarly h.contentLength = some 0 := by assumption
+          simp only [Gen.contentStartEarly] at h0
+          split at h0
+          · rename_i hc0; simpa using hc0
+          · split at h0 <;> simp at h0))
+
 /-- specification of the request phase over a byte stream: the outcome and the unread rest -/
 def reqOutcome (lim : Limits) (h : Head) (s : Bytes) : Outcome × Bytes :=
   match requestPlan lim h with
